@@ -11,60 +11,76 @@ namespace Search
 variable {σ π : Type} [PsInv σ]
 
 /-- what a quiescence-like function guarantees about scores (on `Good` boards, plies that cannot
-    wrap the int8 counter, workable windows, sound tables). -/
+    wrap the int8 counter, workable windows, sound tables) — guarded by the ghost flag: the window
+    and table hypotheses are needed only while `nmpOut = false`, the conclusions hold when the state
+    returned has `nmpOut = false`. -/
 def QRange (Good : Board → Prop) (TTok : σ → Prop) (μ : Board → Nat)
     (child : Score → Score → Int → St σ → Score × St σ) : Prop :=
-  ∀ a b p s, Good s.board → 0 ≤ p → p + (μ s.board : Int) ≤ 111 → WinOK a b → TTok s.ps →
-    TTok (child a b p s).2.ps ∧ ((child a b p s).2.aborted = false → RelP p (child a b p s).1)
+  ∀ a b p s, Good s.board → 0 ≤ p → p + (μ s.board : Int) ≤ 111 → (s.nmpOut = false → WinOK a b) → TTA TTok s →
+    TTA TTok (child a b p s).2 ∧
+      ((child a b p s).2.aborted = false → (child a b p s).2.nmpOut = false → RelP p (child a b p s).1)
 
 /-- the running values of the quiescence loop stay workable. -/
 def QInv (ply : Int) (l : QLoop) : Prop := -32767 ≤ l.alpha ∧ l.alpha ≤ 10000 ∧ RelP ply l.maxim
 
 theorem qAfter_range (c : Comp σ π) (L : Limits) {Good : Board → Prop} {TTok : σ → Prop} {μ : Board → Nat}
     (hlw : Laws c Good) (sl : ScoreLaws c Good TTok μ) (beta : Score) (ply : Int) (m : Move) (r : Board.Reverse)
-    (l : QLoop) (v : Score) (s : St σ) (hp0 : 0 ≤ ply) (hp1 : ply ≤ 126) (htt : TTok s.ps)
+    (l : QLoop) (v : Score) (s : St σ) (hp0 : 0 ≤ ply) (hp1 : ply ≤ 126) (htt : TTA TTok s)
     (hgb : Good (s.board.undoMove m r)) (hmb : m ∈ MoveGen.gen (s.board.undoMove m r))
-    (hv : s.aborted = false → RelP (ply + 1) v) (hl : QInv ply l) :
+    (hv : s.aborted = false → s.nmpOut = false → RelP (ply + 1) v) (hl : s.nmpOut = false → QInv ply l) :
     let o := qAfter c L beta ply m r l v s
-    TTok o.2.ps ∧ (∀ x, o.1 = .ret x → o.2.aborted = false → RelP ply x) ∧ (∀ l', o.1 = .cont l' → QInv ply l') := by
+    TTA TTok o.2 ∧ (∀ x, o.1 = .ret x → o.2.aborted = false → o.2.nmpOut = false → RelP ply x) ∧
+      (∀ l', o.1 = .cont l' → o.2.nmpOut = false → QInv ply l') := by
   simp only [qAfter]
   have hps := abort_ps L (s.setBoard (s.board.undoMove m r))
+  have han : (abort L (s.setBoard (s.board.undoMove m r))).2.nmpOut = s.nmpOut := abort_nmpOut L _
   have hfa := @abort_false σ _ L (s.setBoard (s.board.undoMove m r))
   have hat := abort_true_iff L (s.setBoard (s.board.undoMove m r))
   have hbd : (abort L (s.setBoard (s.board.undoMove m r))).2.board = s.board.undoMove m r :=
     (abort_frame L (s.setBoard (s.board.undoMove m r))).board
-  generalize abort L (s.setBoard (s.board.undoMove m r)) = as at hps hfa hat hbd ⊢
+  generalize abort L (s.setBoard (s.board.undoMove m r)) = as at hps han hfa hat hbd ⊢
+  have htt' : TTA TTok as.2 := htt.congr hps han
   split
   · next hab =>
-    refine ⟨by rw [hps]; exact htt, fun x _ hna => ?_, (fun l' h => by cases h)⟩
+    refine ⟨htt', fun x _ hna => ?_, (fun l' h => by cases h)⟩
     rw [← hat, hab] at hna; cases hna
   · next hab =>
     have hab' : as.1 = false := by simpa using hab
-    have hvp : RelP ply (neg v) := neg_relP hp0 (hv (by simpa using (hfa hab').2))
-    have hvr : InR (neg v) := hvp.inR hp0
+    have hsab : s.aborted = false := by simpa using (hfa hab').2
+    have hvp : s.nmpOut = false → RelP ply (neg v) := fun hA => neg_relP hp0 (hv hsab hA)
     split
-    · have htt' : TTok as.2.ps := by rw [hps]; exact htt
-      refine ⟨sl.tt_store _ _ _ _ _ _ _ htt' hp0 (by omega) hvp
-        (hlw.ok_store _ _ _ _ _ _ _ (sl.tt_ok _ htt') (by rw [hbd]; exact hgb) (Or.inr (by rw [hbd]; exact hmb))),
-        fun x hx _ => ?_, (fun l' h => by cases h)⟩
-      cases hx; exact hvp
-    · refine ⟨by rw [hps]; exact htt, (fun x h => by cases h), fun l' h => ?_⟩
+    · refine ⟨⟨hlw.ok_store _ _ _ _ _ _ _ htt'.1 (by rw [hbd]; exact hgb) (Or.inr (by rw [hbd]; exact hmb)), fun hA => ?_⟩,
+        fun x hx _ hA => ?_, (fun l' h => by cases h)⟩
+      · have hA' : as.2.nmpOut = false := hA
+        exact sl.tt_store _ _ _ _ _ _ _ (htt'.2 hA') hp0 (by omega) (hvp (by rw [← han]; exact hA'))
+          (hlw.ok_store _ _ _ _ _ _ _ htt'.1 (by rw [hbd]; exact hgb) (Or.inr (by rw [hbd]; exact hmb)))
+      · cases hx
+        have hA' : as.2.nmpOut = false := hA
+        exact hvp (by rw [← han]; exact hA')
+    · refine ⟨htt', (fun x h => by cases h), fun l' h hA => ?_⟩
       cases h
-      obtain ⟨h1, h2, h3⟩ := hl
-      exact ⟨le_max_of h1, max_le_of h2 hvr.2, relP_max h3 hvp⟩
+      have hAs : s.nmpOut = false := by rw [← han]; exact hA
+      obtain ⟨h1, h2, h3⟩ := hl hAs
+      have hvp' := hvp hAs
+      have hvr : InR (neg v) := hvp'.inR hp0
+      exact ⟨le_max_of h1, max_le_of h2 hvr.2, relP_max h3 hvp'⟩
 
 theorem qLoop_range (c : Comp σ π) (L : Limits) {Good : Board → Prop} {TTok : σ → Prop} {μ : Board → Nat}
     (hl : Laws c Good) (sl : ScoreLaws c Good TTok μ)
     (child : Score → Score → Int → St σ → Score × St σ) (hc : QSpec L Good child) (hr : QRange Good TTok μ child)
-    (beta sp : Score) (hb1 : -10000 ≤ beta) (hb2 : beta ≤ 32767) (ply : Int) (hp0 : 0 ≤ ply) :
+    (beta sp : Score) (ply : Int) (hp0 : 0 ≤ ply) :
     ∀ (moves : List (Move × Score)) (l : QLoop) (s : St σ), Good s.board → s.board.fifty < 100 →
       (∀ mw ∈ moves, mw.1 ∈ MoveGen.gen s.board ∧ μ (s.board.makeMove c.keys mw.1).1 < μ s.board) →
-      ply + (μ s.board : Int) ≤ 111 → TTok s.ps → QInv ply l →
+      ply + (μ s.board : Int) ≤ 111 → TTA TTok s →
+      (s.nmpOut = false → -10000 ≤ beta ∧ beta ≤ 32767 ∧ QInv ply l) →
       let o := qLoop c L child beta sp ply moves l s
-      TTok o.2.ps ∧ (∀ x, o.1 = .ret x → o.2.aborted = false → RelP ply x) ∧ (∀ l', o.1 = .done l' → QInv ply l') := by
+      TTA TTok o.2 ∧ (∀ x, o.1 = .ret x → o.2.aborted = false → o.2.nmpOut = false → RelP ply x) ∧
+        (∀ l', o.1 = .done l' → o.2.nmpOut = false → QInv ply l') := by
   intro moves
   induction moves with
-  | nil => intro l s _ _ _ _ htt hq; exact ⟨htt, (fun x h => by cases h), fun l' h => by cases h; exact hq⟩
+  | nil =>
+    intro l s _ _ _ _ htt hq
+    exact ⟨htt, (fun x h => by cases h), fun l' h hA => by cases h; exact (hq hA).2.2⟩
   | cons mw rest ih =>
     intro l s hg hfl hm hpl htt hq
     obtain ⟨m, w⟩ := mw
@@ -73,47 +89,53 @@ theorem qLoop_range (c : Comp σ π) (L : Limits) {Good : Board → Prop} {TTok 
     have hrest : ∀ mw ∈ rest, mw.1 ∈ MoveGen.gen s.board ∧ μ (s.board.makeMove c.keys mw.1).1 < μ s.board :=
       fun mw h => hm mw (List.mem_cons_of_mem _ h)
     have hu := hl.undo_make s.board m hg hmem
+    have hdone : TTA TTok s ∧ (∀ x, (Flow.done l : Flow QLoop) = .ret x → s.aborted = false → s.nmpOut = false → RelP ply x) ∧
+        (∀ l', (Flow.done l : Flow QLoop) = .done l' → s.nmpOut = false → QInv ply l') :=
+      ⟨htt, (fun x h => by cases h), fun l' h hA => by cases h; exact (hq hA).2.2⟩
     simp only [qLoop]
     split
-    · exact ⟨htt, (fun x h => by cases h), fun l' h => by cases h; exact hq⟩
+    · exact hdone
     · split
       · rw [hu, setBoard_self]; exact ih l s hg hfl hrest hpl htt hq
       · next hchk =>
         split
-        · rw [hu, setBoard_self]; exact ⟨htt, (fun x h => by cases h), fun l' h => by cases h; exact hq⟩
+        · rw [hu, setBoard_self]; exact hdone
         · have hchk' : (s.board.makeMove c.keys m).1.inCheck s.board.stm = false := by simpa using hchk
           have hg' := hl.good_make s.board m hg hfl hmem hchk'
           have hw : wrapS8 (ply + 1) = ply + 1 := by unfold wrapS8; omega
-          have hwin : WinOK (neg beta) (neg l.alpha) := winOK_full hq.1 hq.2.1 hb1 hb2
-          have hcs := hc (neg beta) (neg l.alpha) (wrapS8 (ply + 1)) (s.setBoard (s.board.makeMove c.keys m).1) hg' (sl.tt_ok _ htt)
+          have hwin : s.nmpOut = false → WinOK (neg beta) (neg l.alpha) := fun hA => by
+            obtain ⟨hb1, hb2, hqi⟩ := hq hA
+            exact winOK_full hqi.1 hqi.2.1 hb1 hb2
+          have hcs := hc (neg beta) (neg l.alpha) (wrapS8 (ply + 1)) (s.setBoard (s.board.makeMove c.keys m).1) hg' htt.1
           have hrs := hr (neg beta) (neg l.alpha) (wrapS8 (ply + 1)) (s.setBoard (s.board.makeMove c.keys m).1) hg'
             (by rw [hw]; omega) (by rw [hw]; simp only [setBoard_board]; omega) hwin htt
           generalize child (neg beta) (neg l.alpha) (wrapS8 (ply + 1)) (s.setBoard (s.board.makeMove c.keys m).1) = r at hcs hrs ⊢
           have hub : r.2.board.undoMove m (s.board.makeMove c.keys m).2 = s.board := by
             rw [hcs.1.board]; simpa using hu
+          have hback : r.2.nmpOut = false → s.nmpOut = false := fun h => hcs.1.mono.a_back h
           have ha := qAfter_spec c L hl beta ply m (s.board.makeMove c.keys m).2 l r.1 r.2
             (by rw [hub]; exact hg) (by rw [hub]; exact hmem)
           have har := qAfter_range c L hl sl beta ply m (s.board.makeMove c.keys m).2 l r.1 r.2 hp0 (by omega) hrs.1
-            (by rw [hub]; exact hg) (by rw [hub]; exact hmem)
-            (by rw [← hw]; exact hrs.2) hq
+            (by rw [hub]; exact hg) (by rw [hub]; exact hmem) (by rw [← hw]; exact hrs.2) (fun hA => (hq (hback hA)).2.2)
           simp only at ha har
           generalize qAfter c L beta ply m (s.board.makeMove c.keys m).2 l r.1 r.2 = o at ha har ⊢
-          obtain ⟨_, hb1', _, _, _, hnb⟩ := ha
+          obtain ⟨hm1, hb1', _, _, _, hnb⟩ := ha
           obtain ⟨htt', hret, hcont⟩ := har
           have hboard : o.2.board = s.board := by
             rw [hb1', hcs.1.board]; simpa using hu
+          have hback2 : o.2.nmpOut = false → s.nmpOut = false := fun h => hback (hm1.a_back h)
           obtain ⟨st, s'⟩ := o
           cases st with
           | ret x =>
-            refine ⟨htt', fun y hy hna => ?_, (fun l' h => by cases h)⟩
+            refine ⟨htt', fun y hy hna hA => ?_, (fun l' h => by cases h)⟩
             have : x = y := by simpa using hy
-            subst this; exact hret x rfl hna
+            subst this; exact hret x rfl hna hA
           | brk l' => exact absurd rfl (hnb l')
           | cont l' =>
-            simp only at hboard htt' ⊢
+            simp only at hboard htt' hback2 hcont ⊢
             exact ih l' s' (by rw [hboard]; exact hg) (by rw [hboard]; exact hfl) (by rw [hboard]; exact hrest)
               (by rw [hboard]; exact hpl) htt'
-              (hcont l' rfl)
+              (fun hA => ⟨(hq (hback2 hA)).1, (hq (hback2 hA)).2.1, hcont l' rfl hA⟩)
 
 theorem ttCut_relP {ply : Int} {e : TTHit} {a b v : Score} (he : RelP ply e.value) (h : ttCut e a b = some v) :
     RelP ply v := by
@@ -130,35 +152,37 @@ theorem ttCut_relP {ply : Int} {e : TTHit} {a b v : Score} (he : RelP ply e.valu
 theorem qBody_range (c : Comp σ π) (L : Limits) {Good : Board → Prop} {TTok : σ → Prop} {μ : Board → Nat}
     (hl : Laws c Good) (sl : ScoreLaws c Good TTok μ)
     (child : Score → Score → Int → St σ → Score × St σ) (hc : QSpec L Good child) (hr : QRange Good TTok μ child)
-    (alpha beta : Score) (hw : WinOK alpha beta) (ply : Int) (hp0 : 0 ≤ ply) (s : St σ) (hg : Good s.board)
-    (hfl : s.board.fifty < 100) (hpl : ply + (μ s.board : Int) ≤ 111) (htt : TTok s.ps) :
+    (alpha beta : Score) (ply : Int) (hp0 : 0 ≤ ply) (s : St σ) (hw : s.nmpOut = false → WinOK alpha beta)
+    (hg : Good s.board)
+    (hfl : s.board.fifty < 100) (hpl : ply + (μ s.board : Int) ≤ 111) (htt : TTA TTok s) :
     let o := qBody c L child alpha beta ply s
-    TTok o.2.ps ∧ (o.2.aborted = false → RelP ply o.1) := by
+    TTA TTok o.2 ∧ (o.2.aborted = false → o.2.nmpOut = false → RelP ply o.1) := by
   simp only [qBody]
   split
   · next v hcut =>
-    refine ⟨htt, fun _ => ?_⟩
+    refine ⟨htt, fun _ hA => ?_⟩
     split at hcut
-    · next e he => exact ttCut_relP (sl.tt_probe _ _ _ _ htt hp0 (by omega) he) hcut
+    · next e he => exact ttCut_relP (sl.tt_probe _ _ _ _ (htt.2 hA) hp0 (by omega) he) hcut
     · cases hcut
   · split
-    · exact ⟨htt, fun _ => relP_mate hp0 (by omega)⟩
+    · exact ⟨htt, fun _ _ => relP_mate hp0 (by omega)⟩
     · split
-      · exact ⟨htt, fun _ => relP_zero ply⟩
+      · exact ⟨htt, fun _ _ => relP_zero ply⟩
       · have hse := inR_eval c s.board
         have hsp := relP_eval c s.board ply
         split
-        · exact ⟨htt, fun _ => hsp⟩
-        · obtain ⟨hw1, hw2, hw3, hw4⟩ := hw
-          have hq0 : QInv ply { alpha := max alpha (evaluate c s.board), maxim := evaluate c s.board } :=
-            ⟨le_max_of hw1, max_le_of hw2 hse.2, hsp⟩
-          have h := qLoop_range c L hl sl child hc hr beta (evaluate c s.board) hw3 hw4 ply hp0
+        · exact ⟨htt, fun _ _ => hsp⟩
+        · have hq0 : s.nmpOut = false → -10000 ≤ beta ∧ beta ≤ 32767 ∧
+              QInv ply { alpha := max alpha (evaluate c s.board), maxim := evaluate c s.board } := fun hA => by
+            obtain ⟨hw1, hw2, hw3, hw4⟩ := hw hA
+            exact ⟨hw3, hw4, le_max_of hw1, max_le_of hw2 hse.2, hsp⟩
+          have h := qLoop_range c L hl sl child hc hr beta (evaluate c s.board) ply hp0
             (c.qMoves s.ps s.board s.hstack)
             { alpha := max alpha (evaluate c s.board), maxim := evaluate c s.board } s.pushFrame hg hfl
             (fun mw hmw => ⟨hl.q_mem s.ps s.board s.hstack mw.1 mw.2 hg hmw,
               sl.q_measure s.ps s.board s.hstack mw.1 mw.2 hg hmw⟩) hpl htt hq0
           have hfs := (qLoop_spec c L hl child hc beta (evaluate c s.board) ply (c.qMoves s.ps s.board s.hstack)
-            { alpha := max alpha (evaluate c s.board), maxim := evaluate c s.board } s.pushFrame hg ⟨sl.tt_ok _ htt, hfl⟩
+            { alpha := max alpha (evaluate c s.board), maxim := evaluate c s.board } s.pushFrame hg ⟨htt.1, hfl⟩
             (fun mw hmw => hl.q_mem s.ps s.board s.hstack mw.1 mw.2 hg hmw)).1.board
           simp only at h
           generalize qLoop c L child beta (evaluate c s.board) ply (c.qMoves s.ps s.board s.hstack)
@@ -166,15 +190,16 @@ theorem qBody_range (c : Comp σ π) (L : Limits) {Good : Board → Prop} {TTok 
           obtain ⟨htt', hret, hdone⟩ := h
           obtain ⟨fl, s'⟩ := r
           cases fl with
-          | ret x => exact ⟨htt', fun hna => hret x rfl hna⟩
+          | ret x => exact ⟨htt', fun hna hA => hret x rfl hna hA⟩
           | done l' =>
-            have := hdone l' rfl
             have hqs : Good s'.popFrame.board := by
               have : s'.board = s.board := hfs
               show Good s'.board
               rw [this]; exact hg
-            exact ⟨sl.tt_store _ _ _ _ _ _ _ htt' hp0 (by omega) this.2.2
-              (hl.ok_store _ _ _ _ _ _ _ (sl.tt_ok _ htt') hqs (Or.inl rfl)), fun _ => this.2.2⟩
+            have hok' := hl.ok_store s'.popFrame.ps s'.popFrame.board 0 ply 0 l'.maxim .upper htt'.1 hqs (Or.inl rfl)
+            refine ⟨⟨hok', fun hA => ?_⟩, fun _ hA => (hdone l' rfl hA).2.2⟩
+            have hA' : s'.nmpOut = false := hA
+            exact sl.tt_store _ _ _ _ _ _ _ (htt'.2 hA') hp0 (by omega) (hdone l' rfl hA').2.2 hok'
 
 theorem quiescence_range (c : Comp σ π) (L : Limits) {Good : Board → Prop} {TTok : σ → Prop} {μ : Board → Nat}
     (hl : Laws c Good) (sl : ScoreLaws c Good TTok μ) (fuel : Nat) :
@@ -187,16 +212,20 @@ theorem quiescence_range (c : Comp σ π) (L : Limits) {Good : Board → Prop} {
     have h1 := incrementNodes_frame L s
     have h2 := abort_frame L (incrementNodes L s)
     have hps : (abort L (incrementNodes L s)).2.ps = s.ps := (abort_ps L _).trans (incrementNodes_ps L s)
+    have han : (abort L (incrementNodes L s)).2.nmpOut = s.nmpOut :=
+      (abort_nmpOut L _).trans (incrementNodes_nmpOut L s)
     have h12 := h1.trans h2
     have hat := abort_true_iff L (incrementNodes L s)
-    generalize abort L (incrementNodes L s) = as at h12 hps hat ⊢
+    generalize abort L (incrementNodes L s) = as at h12 hps han hat ⊢
+    have htt' : TTA TTok as.2 := htt.congr hps han
     split
-    · next hab => exact ⟨by rw [hps]; exact htt, fun hna => by rw [← hat, hab] at hna; cases hna⟩
+    · next hab => exact ⟨htt', fun hna => by rw [← hat, hab] at hna; cases hna⟩
     · split
-      · exact ⟨by rw [hps]; exact htt, fun _ => relP_zero p⟩
+      · exact ⟨htt', fun _ _ => relP_zero p⟩
       · next hnd =>
-        exact qBody_range c L hl sl (quiescence c L fuel) (quiescence_spec c L hl fuel) ih a b hw p hp0 as.2
-          (by rw [h12.board]; exact hg) (fifty_lt_of_not_draw hnd) (by rw [h12.board]; exact hpl) (by rw [hps]; exact htt)
+        exact qBody_range c L hl sl (quiescence c L fuel) (quiescence_spec c L hl fuel) ih a b p hp0 as.2
+          (fun hA => hw (by rw [← han]; exact hA))
+          (by rw [h12.board]; exact hg) (fifty_lt_of_not_draw hnd) (by rw [h12.board]; exact hpl) htt'
 
 end Search
 end ChessVerif
